@@ -838,7 +838,7 @@ def install_vf2(I):
         g1, g2 = args[0], args[1]
         yield MatcherVal(g1, g2, kw.get("node_match", args[2] if len(args) > 2 else None),
                          kw.get("edge_match", args[3] if len(args) > 3 else None)), st
-    for name in ("GraphMatcher", "networkx.algorithms.isomorphism.GraphMatcher", "networkx.algorithms.isomorphism.vf2userfunc.GraphMatcher",
+    for name in ("GraphMatcher", "_NXGraphMatcher", "networkx.algorithms.isomorphism.GraphMatcher", "networkx.algorithms.isomorphism.vf2userfunc.GraphMatcher",
                  "DiGraphMatcher", "networkx.algorithms.isomorphism.DiGraphMatcher"):
         I.lib[name] = BuiltinVal(name, _new_matcher)
 
@@ -880,6 +880,38 @@ def install_vf2(I):
         ]
         return facts
 
+    def induced_fact(st, M, iso):
+        """non-edges are reflected: a G1 edge between two mapped nodes is a G2 edge (induced subgraph isomorphism)"""
+        a1, a2 = I.nx_fld(st, M.g1, "adj").tree, I.nx_fld(st, M.g2, "adj").tree
+        dom, val = iso.tree
+        h, h2 = z3.Const(core.fresh_name("h"), Val), z3.Const(core.fresh_name("h2"), Val)
+        return z3.ForAll([h, h2], z3.Implies(z3.And(z3.Select(dom, h), z3.Select(dom, h2), z3.Select(a1, to_key(EDGE, (h, h2)))),
+                                             z3.Select(a2, to_key(EDGE, (z3.Select(val, h), z3.Select(val, h2))))))
+
+    def _subiso_iter(st, M):
+        n = z3.Int(core.fresh_name("n_subiso"))
+        L = tfresh(LIST(MAPK), "subisos")
+        i, j = z3.Int(core.fresh_name("i")), z3.Int(core.fresh_name("j"))
+        elt = lambda idx: SV(MAPK, tselect(L[1], idx))
+        facts = [n >= 0]
+        for f in mono_facts(st, M, elt(i)) + [induced_fact(st, M, elt(i))]:
+            facts.append(z3.ForAll([i], z3.Implies(z3.And(0 <= i, i < n), f)))
+        facts.append(z3.ForAll([i, j], z3.Implies(z3.And(0 <= i, i < j, j < n), z3.Not(I.py_eq(elt(i), elt(j))))))
+        I.define(facts)
+        I.assumptions_used.add("A-vf2: GraphMatcher.subgraph_isomorphisms_iter yields induced-subgraph isomorphisms only, each once")
+        return IterSpec("seq", length=n, ekind=MAPK, elt=elt, as_list=SV(LIST(MAPK), (n, L[1])))
+
+    def _is_isomorphic(st, M):
+        """is_isomorphic(): when true, `.mapping` is a label-preserving bijection V(G1) -> V(G2) (A-vf2)"""
+        b = z3.Bool(core.fresh_name("vf2_iso"))
+        m = SV(MAPK, tfresh(MAPK, "vf2_mapping"))
+        n1 = I.nx_fld(st, M.g1, "nodes").tree
+        facts = mono_facts(st, M, m) + [induced_fact(st, M, m), m.tree[0] == n1]
+        I.define([z3.Implies(b, f) for f in facts])
+        M.mapping = m
+        M.iso_flag = b
+        return SV(BOOL, b)
+
     def _monos_iter(st, M):
         n = z3.Int(core.fresh_name("n_monos"))
         L = tfresh(LIST(MAPK), "monos")
@@ -902,6 +934,12 @@ def install_vf2(I):
             if name == "subgraph_monomorphisms_iter":
                 yield _monos_iter(st, recv), st
                 return
+            if name == "subgraph_isomorphisms_iter":
+                yield _subiso_iter(st, recv), st
+                return
+            if name == "is_isomorphic":
+                yield _is_isomorphic(st, recv), st
+                return
             raise Unsupported("GraphMatcher.%s" % name)
         yield from base_call_method(st, recv, name, args, kw)
     I.call_method = call_method
@@ -911,6 +949,10 @@ def install_vf2(I):
     def getattr_(st, base, attr):
         from .interp import BoundBuiltin
         if isinstance(base, MatcherVal):
+            if attr == "mapping":
+                if getattr(base, "mapping", None) is None:
+                    raise Unsupported("GraphMatcher.mapping before is_isomorphic()")
+                return base.mapping
             return BoundBuiltin(base, attr)
         return base_getattr(st, base, attr)
     I.getattr = getattr_
